@@ -351,12 +351,41 @@ def rule_R6(src):
             return src, n
 
 
+def rule_R11(src):
+    """(lo..hi).map(|p| E).collect()  ->  { let mut vx_out = Vec::new(); for p in lo..hi { vx_out.push(E); } vx_out }
+    (std iterators are evaluated in order by collect; the closure is a single expression)"""
+    mask = rl.code_mask(src)
+    out, pos, n = [], 0, 0
+    rx = re.compile(r'\(([^()]*?)\.\.([^()]*?)\)\s*\.map\(\|\s*([A-Za-z_][A-Za-z0-9_]*)\s*\|')
+    for m in rl.find_code(src, rx, mask=mask):
+        if m.start() < pos:
+            continue
+        o = src.rfind('(', m.start(), m.end() - 1)
+        o = src.index('.map(', m.start()) + 4
+        c = rl.match_bracket(src, o, mask)
+        tail = re.match(r'\s*\.collect(?:::<Vec<_>>)?\(\)', src[c + 1:])
+        if not tail:
+            continue
+        body_expr = src[m.end():c].strip()
+        var = m.group(3)
+        loopvar = 'vx_k' if var == '_' else var
+        new = '{ let mut vx_out = Vec::new(); for %s in %s..%s { vx_out.push(%s); } vx_out }' % (loopvar, m.group(1).strip(), m.group(2).strip(), _flat(body_expr))
+        end = c + 1 + tail.end()
+        out.append(src[pos:m.start()])
+        out.append(_pad(new, src[m.start():end]))
+        pos = end
+        n += 1
+    out.append(src[pos:])
+    return ''.join(out), n
+
+
 GLOBAL_RULES = [
     ('R1', 'attributes removed (#[inline], #[allow], #[unroll_for_loops], #[must_use], #[rustfmt::skip], #[cfg] of the selected arm)',
      _regex_rule(r'#\[(?:inline|allow|unroll_for_loops|must_use|rustfmt::skip|cfg|cold|doc)[^\]]*\]', '')),
     ('R1b', 'const_assert!(..) removed (evaluated by rustc at compile time)', _regex_rule(r'\bconst_assert!\([^;]*\);', '')),
     ('R5a', 'array pattern `let [a,b,..] = e;` -> indexed lets', rule_R5a),
     ('R5b', 'destructuring assignment `(a, b) = e;` -> temporary + field assignments', rule_R5b),
+    ('R11', '(a..b).map(|i| E).collect() -> push loop', rule_R11),
     ('R6', 'for-loops over slices (&v, .iter(), .enumerate(), .zip(), (a..b).rev()) -> index loops with element lets', rule_R6),
     ('R2', 'branch_hint() removed (empty asm!, no semantics)', _regex_rule(r'\bbranch_hint\(\)\s*;', '')),
     ('R3', 'plonky2_util::assume(p) renamed to util_assume(p) with `requires p` (assumption becomes an obligation)',
@@ -571,6 +600,10 @@ def extract_item(kv):
     text = rl.strip_comments(text)
     text = re.sub(r'#\[[^\]]*\]\s*', '', text)   # field/serde attributes
     text = re.sub(r'\bpub\((?:crate|super)\)', 'pub', text)   # visibility is irrelevant in the single-file crate
+    if kind == 'struct' and '{' in text:
+        head, _, rest = text.partition('{')
+        rest = re.sub(r'(?m)^(\s*)(?!pub\b)([a-z_][A-Za-z0-9_]*\s*:)', r'\1pub \2', rest)
+        text = head + '{' + rest
     if kv.get('attr'):
         text = ''.join('#[%s]\n' % a for a in kv['attr'].split(';;')) + text
     if kind in ('struct', 'enum') and kv.get('derive'):
@@ -686,6 +719,9 @@ def splice(u, ex, probe=False, mutant=None):
                 le = body.find('\n', close)
                 le = len(body) if le < 0 else le
                 inserts.append((le, '\n' + '\n'.join(lines), 'ghost'))
+            continue
+        if anchor == '@end':
+            inserts.append((len(body.rstrip()), '\n' + '\n'.join(lines) + '\n', 'ghost'))
             continue
         if anchor in ('@tail', '@start'):
             if anchor == '@start':
